@@ -125,6 +125,10 @@ def handle (sess : Session) (line : String) : Session × String :=
     match sess.get src.toNat! with
     | some c => (sess.set dst.toNat! c, "ok")
     | none => (sess, "bad-op")
+  | ["clonefrom", src, dst] =>
+    match sess.get src.toNat!, sess.get dst.toNat! with
+    | some c, some _ => (sess.set dst.toNat! c, "ok")
+    | _, _ => (sess, "bad-op")
   | ["dump", slot] =>
     match sess.get slot.toNat! with
     | some c =>
@@ -157,7 +161,12 @@ def handle (sess : Session) (line : String) : Session × String :=
       let part (k : IterKind) : String :=
         ",".intercalate ((n.iterIdents k).map hexOfStr) ++ "/" ++
         ",".intercalate ((n.iterIdentsMut k).map hexOfStr)
-      (sess, "ok " ++ " ".intercalate (allIterKinds.map part))
+      -- internal iteration after a partial external one (next, then for_each; skip(1).last(); next, next, fold)
+      let ids := (n.iterIdents .identifiers).map hexOfStr
+      let vars := (n.iterIdents .variable).map hexOfStr
+      let reads := (n.iterIdents .readVariable).map hexOfStr
+      let extra := s!"{ids.head?.getD ""};{",".intercalate ids.tail};{(vars.drop 1).getLast?.getD ""};{",".intercalate (reads.drop 2)}"
+      (sess, "ok " ++ " ".intercalate (allIterKinds.map part ++ [extra]))
   | ["rename", kind, suffix, src] =>
     match iterKindOf kind, buildOperatorTree (hexArg src) with
     | some k, .ok n => (sess, "ok " ++ encNode (n.renameDesc k (· ++ hexArg suffix)))
@@ -201,6 +210,16 @@ def handle (sess : Session) (line : String) : Session × String :=
     -- systematic cases are written with single spaces, so that a replay is readable
     let src := Spec.renderFrom ((Spec.render e).map fun t => ([Spec.Sep.ws ' '], Gen.ptok t)) []
     (sess, s!"x{hexOfStr src} {encNode ⟨.rootNode, [Spec.toTree e]⟩}")
+  | ["gen.c02tight", idx] =>
+    let (src, e) := Gen.tightCase idx.toNat!
+    (sess, s!"x{hexOfStr src} {encNode ⟨.rootNode, [Spec.toTree e]⟩}")
+  | ["gen.c02call", idx] =>
+    let i := idx.toNat!
+    let (ts, tree) := if h : i < Gen.assignOps.size then
+        (Spec.callAssignTokens Gen.assignOps[i], Spec.callAssignTree Gen.assignOps[i])
+      else (Spec.chainCallAssignTokens, Spec.chainCallAssignTree)
+    let src := Spec.renderFrom (ts.map fun t => ([Spec.Sep.ws ' '], Gen.ptok t)) []
+    (sess, s!"x{hexOfStr src} {encNode tree}")
   | ["gen.c05", seed, depth] =>
     let (l, r) := Gen.genOperand.genLevel ⟨seed.toNat!⟩ depth.toNat!
     let (src, _) := Gen.renderTokens (Spec.renderLevel l) r
